@@ -2,11 +2,16 @@
 // Plain map is one level key map. It contains keys like "lvl1.lvl2".
 package plainmap
 
-import "strings"
+import "encoding/json"
 
 // Any represent any type
 type Any interface{}
 
 func formatStringJSON(s string) string {
-	return "\"" + strings.Replace(s, "\"", "\\\"", -1) + "\""
+	// a JSON string literal: quotes, backslashes and control characters are escaped
+	data, err := json.Marshal(s)
+	if err != nil {
+		return "\"\""
+	}
+	return string(data)
 }
